@@ -14,6 +14,7 @@ use std::sync::Arc;
 
 mod alloc;
 mod casts;
+mod consume;
 mod ext;
 mod fwd;
 mod generic;
@@ -58,6 +59,7 @@ fn main() {
         let rows = match hdr[0] {
             101 => shapes::run(&hdr[1..], &ops, &mut mon),
             102 => generic::run(&hdr[1..], &ops, &mut mon),
+            107 => consume::run(&hdr[1..], &ops, &mut mon),
             104 => fwd::run(&hdr[1..], &ops, &mut mon),
             105 => ext::run(&hdr[1..], &ops, &mut mon),
             106 => life::run(&hdr[1..], &ops, &mut mon),
